@@ -936,6 +936,19 @@ func check(t rep.Fataler, c Case) {
 		return
 	}
 	if o.msg != "" {
+		// The daemon is deterministic in the files it sees and the ticks it is
+		// given; what the harness observes of it (which calls belong to which
+		// tick) rests on goroutine quiescence, which a heavily loaded machine can
+		// blur. A verdict has to show up on a second execution of the same case;
+		// one that does not is inconclusive, with its message.
+		o2 := run(c)
+		if o2.msg == "" && o2.incon == "" {
+			rep.Inconclusive("observed once, not on an identical second execution: " + o.msg)
+			return
+		}
+		if o2.msg != "" {
+			o = o2
+		}
 		rep.Fail(t, ID, "cronsim", c, map[string]any{"ticks": o.ticks}, "%s", o.msg)
 	}
 	key := ""
